@@ -505,11 +505,12 @@ class Check:
                         if anc == r["top"]:
                             break
                         anc = anc.rsplit("/", 1)[0]
-                    if blocked_above:
+                    if blocked_above or any(P == m_ or P.startswith(m_ + "/") for m_ in mid):
                         continue
                     lvlP = 0 if P == r["top"] else P[len(r["top"]) + 1:].count("/") + 1
                     for n in world["nodes"]:
-                        if n["type"] == "dir" and n["path"].rsplit("/", 1)[0] == P and (r["maxd"] == 0 or lvlP + 1 < r["maxd"]):
+                        full = {f["fail"]["call"] for f in case["faults"] if f.get("unsearchable_parent") == P and f["fail"]["path"] == n["path"]}
+                        if n["type"] == "dir" and n["path"].rsplit("/", 1)[0] == P and (r["maxd"] == 0 or lvlP + 1 < r["maxd"]) and {"stat", "realpath", "opendir"} <= full:
                             name = r["sp"] + n["path"][len(r["top"]):]
                             if res.status != 1 or name.encode("utf-8") not in res.stderr:
                                 viols.append(Violation(PROP, "C17.A.silent", ["C17.A", "unlistable_directory_skipped_silently", "unsearchable_parent", shape],
@@ -584,12 +585,19 @@ class Check:
                 if bad:
                     viols.append(Violation(PROP, "C17.B.crash", ["C17.B", "abnormal_end:" + bad, fkind, "path"], {"query": qs, "faults": case["faults"], "outcome": rx.summary()}))
                     return viols
-                got = collections.Counter(r[0] for r in rx.rows(1))
-                lo = collections.Counter(r[0] for r in rn.rows(1))
-                hi = collections.Counter(r[0] for r in rf.rows(1))
+                import os
+
+                def ident(row):
+                    # the same entry may be printed under another path text when a different link leads to it first
+                    pth = row.decode("utf-8", "surrogateescape")
+                    ab = pth if os.path.isabs(pth) else os.path.join(sb.root, pth)
+                    return (os.path.realpath(os.path.dirname(ab)), os.path.basename(ab))
+                got = collections.Counter(ident(r[0]) for r in rx.rows(1))
+                lo = collections.Counter(ident(r[0]) for r in rn.rows(1))
+                hi = collections.Counter(ident(r[0]) for r in rf.rows(1))
                 if (lo - got) or (got - hi):
                     viols.append(Violation(PROP, "C17.B.others", ["C17.B", "rows_changed_by_unreadable_link", fkind, "path"],
-                                           {"query": qs, "faults": case["faults"], "lost": [x.decode("utf-8", "replace") for x in (lo - got)][:4], "invented": [x.decode("utf-8", "replace") for x in (got - hi)][:4]}))
+                                           {"query": qs, "faults": case["faults"], "lost": [list(x) for x in (lo - got)][:4], "invented": [list(x) for x in (got - hi)][:4]}))
                 return viols
             if kind == "fifo":
                 res = sb.run([q], plan=self.plan_with(case))
